@@ -428,3 +428,28 @@ def g_rot_state(rng, level=0, n_random=150):
     for _ in range(n_random):
         N = int(rng.integers(1, 4))
         yield {'self': _rand_state(rng, N), 'generator': pa.Pauli(bits(rng, 2 * N), int(2 * rng.integers(0, 2))), 'mask': None}
+
+
+@gen(U + 'batch_dot')
+def g_bdot(rng, level=0, n_random=150):
+    for _ in range(n_random):
+        N = int(rng.integers(1, 4))
+        L1, L2 = int(rng.integers(0, 4)), int(rng.integers(0, 4))
+        yield {'gs1': bits(rng, L1, 2 * N), 'ps1': rng.integers(0, 4, L1).astype(np.int64), 'cs1': (rng.normal(size=L1) + 1j * rng.normal(size=L1)),
+               'gs2': bits(rng, L2, 2 * N), 'ps2': rng.integers(0, 4, L2).astype(np.int64), 'cs2': (rng.normal(size=L2) + 1j * rng.normal(size=L2))}
+
+
+@gen(PA + 'PauliPolynomial.__matmul__#poly')
+def g_polymul(rng, level=0, n_random=100):
+    pa, _ = _pc()
+    for a in g_bdot(rng, level, n_random):
+        yield {'self': pa.PauliPolynomial(a['gs1'], a['ps1']).set_cs(a['cs1']), 'other': pa.PauliPolynomial(a['gs2'], a['ps2']).set_cs(a['cs2'])}
+
+
+@gen(PA + 'Pauli.__matmul__#Monomial')
+def g_matmul_mono(rng, level=0, n_random=150):
+    pa, _ = _pc()
+    for _ in range(n_random):
+        N = int(rng.integers(1, 4))
+        m = pa.PauliMonomial(bits(rng, 2 * N), int(rng.integers(0, 4))).set_c(complex(rng.normal(), rng.normal()))
+        yield {'self': pa.Pauli(bits(rng, 2 * N), int(rng.integers(0, 4))), 'other': m}
